@@ -5,7 +5,24 @@ V = os.path.dirname(os.path.dirname(os.path.abspath(__file__)))
 props = [json.loads(l) for l in open(os.path.join(V, "properties.jsonl"))]
 
 ABM_TECH = "TLA+ spec (spec/Abm.tla) + TLC exhaustive invariants; TLC-generated behaviours (all short histories + long random ones) replayed into the implementation with the observation compared after every action"
+SRV_TECH = "TLA+ spec (spec/Server.tla) + TLC exhaustive invariants/action properties; TLC-generated request histories replayed into a real BptkServer (Flask test client, controlled clock, FileAdapter on a scratch directory) with every response compared"
 CHECKS = {
+ "C16": dict(cat="model_checking", ref="6/C16",
+    text="spec/Server.tla: TLC checks the action property Isolated (a request addressed to one instance changes no other instance's memory or external state) and Continuity exhaustively for 2 instances; TLC-generated interleavings of begin (with/without settings, two scenarios), run-step, run-steps, results, end, keep-alive, stop over 2-3 instances are replayed on one server, every response compared with the spec and byte-for-byte with a solo replay of that instance's own requests on a fresh server",
+    note="interleaving at request granularity; timeouts covered by C17; trusted: TLC, replay adapter, Flask test client",
+    tech=SRV_TECH + "; differential solo replay"),
+ "C17": dict(cat="model_checking", ref="6/C17",
+    text="spec/Server.tla with an integer clock: TLC checks AliveOK (available while less than the timeout has elapsed since creation/last access) and GoneOK (nothing expired stays after a sweep-triggering request) exhaustively for 2-3 instances; timed histories (create, every instance-scoped request, keep-alive, metrics, ticks) are replayed under a controlled clock for every timedelta unit and two mixed-unit spellings, with and without an external state adapter (lazy restore), comparing statuses, full-metrics, instance counts and that bptk.destroy() ran for swept instances",
+    note="controlled clock (datetime replaced inside the server modules); access to an expired, not yet swept instance without adapter is outside the spec (not asserted)",
+    tech=SRV_TECH),
+ "C19": dict(cat="model_checking", ref="6/C19",
+    text="spec/Server.tla store fragment: every externalisation is the in-memory session (clock, settings log, results log) and every restore path (lazy restore after a sweep, /save-state + /load-state, new server object) yields it back; histories with run-step (settings / empty / no body), run-steps, begin/end over 1-2 instances and a two-manager session are replayed with both compression modes; session-results, step results, the restored clock and settings log are compared after every step",
+    note="known findings KF-C20-1 (settings not replayed after restore) and KF-C19-1 (compressed format drops setting-less steps) are matched only against the spec's faithful prediction (Dev set) for the same history",
+    tech=SRV_TECH),
+ "C20": dict(cat="model_checking", ref="6/C20",
+    text="spec/Server.tla with Crash and Tear actions: TLC checks Continuity (every step after any crash/restore answers what the uninterrupted session would) and AliveOK exhaustively; every crash point of every session history up to length 5-6 (enumerated by TLC) and long random histories over two instances with torn state files (six truncation classes; every byte offset in the thorough tier) are replayed by dropping the server object and constructing a new one on the same directory",
+    note="crash = new server object on the same state directory; torn write = truncated file; KF-C20-1 matched only against the faithful prediction",
+    tech=SRV_TECH),
  "C11": dict(cat="model_checking", ref="6/C11",
     text="spec/Abm.tla event fragment: TLC checks AtMostOnce, RightAgent, RightStep (sent+1+ceil(delay/dt)), InOrder, ExactlyOnce (receiver alive and handling when due), DueInTime exhaustively for small populations/events/steps over create/delete/set-state/send/step; TLC-generated histories (all of length 4-5, plus long random ones for dt in {1,.5,.1,.25,.2} with on- and off-grid delays, sends from outside and from inside act(), deletions, reconfiguration) are replayed into a real Model with instrumented agents and the handler log is compared after every step",
     note="trusted: TLC, replay adapter; handling order asserted only between events enqueued in the same step; claims restricted to events whose receiver has a handler in its current state",
